@@ -205,6 +205,38 @@ func planC11(g *Gen, tier string) ([]SQLCase, map[string]int, bool) {
 		cases = append(cases, SQLCase{Kind: "w", Tag: tag, W: w})
 		stats[tag]++
 	}
+	// every kind of invalid option, every run, through every entry point, with the table present and absent:
+	// the call is refused and the database is never touched
+	for vi := 0; vi < 7; vi++ {
+		for ei, entry := range []string{"ToSQL", "ToSQLContext", "ToSQLTx", "ToSQLTxContext"} {
+			f := g.sqlFrame(1+(vi+ei)%3, 1+(vi+ei)%2)
+			w := &WCase{HasOpt: true, IfExists: "append", Dialect: BStr(dialectNames[(vi+ei)%len(dialectNames)]), Batch: 2, TypeMapNil: true, Table: "t", Frame: f, Entry: entry}
+			w.Tx = ei >= 2
+			w.Store = []NamedTable{otherTable()}
+			if (vi+ei)%2 == 0 {
+				w.Store = append(w.Store, NamedTable{Name: w.Table, Table: existingTable(g, f, 0)})
+			}
+			w.Store = sortStore(w.Store)
+			switch vi {
+			case 0:
+				w.IfExists = "overwrite"
+			case 1:
+				w.Batch = -1
+			case 2:
+				w.Dialect = "oracle"
+			case 3:
+				w.Dialect = ""
+			case 4:
+				w.HasOpt = false
+			case 5:
+				w.Dialect = "sqlite4"
+			default:
+				w.IfExists = "REPLACE "
+			}
+			cases = append(cases, SQLCase{Kind: "w", Tag: "invalid-options-each", W: w})
+			stats["invalid-options-each"]++
+		}
+	}
 	return cases, stats, true
 }
 
@@ -426,7 +458,8 @@ func planC14(g *Gen, tier string) ([]SQLCase, map[string]int, bool) {
 	cases := []SQLCase{}
 	stats := map[string]int{}
 	add := func(tag string, r *RCase) {
-		r.Root = len(cases)%3 == 1 // every third import goes through the root package's wrapper
+		r.Root = len(cases)%3 == 1   // every third import goes through the root package's wrapper
+		r.NilCtx = len(cases)%4 == 2 // and every fourth hands the Context entry points a nil context
 		cases = append(cases, SQLCase{Kind: "r", Tag: tag, R: r})
 		stats[tag]++
 	}
